@@ -8,6 +8,8 @@
  *        loads a topology the way the named tool configures it (flags and
  *        type filters copied from the tools' main()), prints "load rc=<0|-1>"
  *        and the canonical dump (harness/hwv_dump.h)
+ *   restrict <flags> <set in hwloc format>   hwloc_topology_restrict (what the tools' --restrict does after the load):
+ *        prints "restrict rc=<rc>" and the new dump
  *   xmlexport <flags> <file>     hwloc_topology_export_xmlbuffer -> bytes written to <file>
  *   synexport <flags>            hwloc_topology_export_synthetic  -> "syn <rc> <text>"
  *   largest <set>                hwloc_get_largest_objs_inside_cpuset -> "largest <n> Type:lidx ..."
@@ -98,7 +100,16 @@ int main(void)
     while (len && (p[len-1] == '\n' || p[len-1] == '\r')) p[--len] = 0;
     if (!strncmp(p, "topo ", 5)) { cmd_topo(p + 5); done(); continue; }
     if (!loaded) { puts("notopo"); done(); continue; }
-    if (!strncmp(p, "xmlexport ", 10)) {
+    if (!strncmp(p, "restrict ", 9)) {
+      unsigned long fl; int n = 0, rc;
+      hwloc_bitmap_t set = hwloc_bitmap_alloc();
+      sscanf(p + 9, "%lu %n", &fl, &n);
+      hwloc_bitmap_sscanf(set, p + 9 + n);
+      rc = hwloc_topology_restrict(topo, set, fl);
+      hwloc_bitmap_free(set);
+      printf("restrict rc=%d\n", rc);
+      hwv_dump_topology(stdout, topo, 2);
+    } else if (!strncmp(p, "xmlexport ", 10)) {
       unsigned long fl; int n = 0; char *buf = NULL; int blen = 0, rc;
       sscanf(p + 10, "%lu %n", &fl, &n);
       rc = hwloc_topology_export_xmlbuffer(topo, &buf, &blen, fl);
